@@ -439,6 +439,9 @@ def main(argv=None):
     # the float-dependent statements live in their own file, so that Props/C03.v (the list/Z development) stays
     # free of primitive floats and of the real-number axioms
     ck.prove("Props/C03Float.v")
+    # SQLite's date arithmetic at the text level (parse of the stored TEXT, calendar, strftime): Flocq plus a kernel
+    # evaluation over the days 1970 .. 2100, in a file of its own
+    ck.prove("Props/C03SqliteText.v")
     have_driver = ck.driver("ExC03")
 
     quick = ck.tier == "quick"
